@@ -214,6 +214,12 @@ def parse_color_to_rgb(
                 # HSL without alpha
                 return hsl_to_rgb(s)
 
+        # Any other CSS function (hwb(), lab(), lch(), oklch(), color(), url(), calc() ...) is not
+        # something this parser can read: reject it instead of taking its numbers as r, g, b
+        func = re.match(r"([a-z_-][a-z0-9_-]*)\(", s_lower)
+        if func and func.group(1) not in ("rgb", "rgba"):
+            raise ValueError(f"Unsupported color function: '{func.group(1)}()'")
+
         # RGB/RGBA functional notation and informal formats
         if (
             s_lower.startswith("rgb(")
